@@ -274,6 +274,7 @@ impl<'a> Exec<'a> {
                     st: RState {
                         scalars,
                         mem: shadow_mem,
+                        intrinsics_are_nops: false,
                     },
                     names,
                 },
@@ -1004,6 +1005,15 @@ impl<'a> Gen<'a> {
     /// an address expression landing in (or just outside) the data zone
     fn address(&mut self, bytes: u64) -> ExprSpec {
         let off = self.rng.below(64u64.saturating_sub(bytes).max(1));
+        if self.rng.chance(1, 16) {
+            // an index computed at 128 bits; with the high part set it must be an error
+            let wide = ExprSpec::b("add", ExprSpec::x("zext", 128, ExprSpec::s("gp", 64)), ExprSpec::cu(off, 128));
+            return if self.allow_div_fault && self.rng.chance(1, 3) {
+                ExprSpec::b("or", wide, ExprSpec::C("10000000000000000".into(), 128))
+            } else {
+                wide
+            };
+        }
         match self.rng.below(5) {
             0 => ExprSpec::cu((self.data + off) & 0xffff_ffff, 32),
             1 => ExprSpec::b("add", ExprSpec::s("gp", 64), ExprSpec::cu(off, 64)),
@@ -1316,7 +1326,17 @@ pub fn generate(run_seed: u64, index: u64) -> Script {
                 }
                 6 | 7 => {
                     // indirect branch terminator
-                    let t = match g.rng.below(6) {
+                    let t = match g.rng.below(7) {
+                        // a target computed in a 128-bit temporary: fine while the value fits
+                        // 64 bits, an error (not a truncated address) when it does not
+                        6 => {
+                            let wide = ExprSpec::x("zext", 128, ExprSpec::s("gq", 64));
+                            if !fault_free && g.rng.chance(1, 2) {
+                                ExprSpec::b("add", wide, ExprSpec::C("10000000000000000".into(), 128))
+                            } else {
+                                wide
+                            }
+                        }
                         0 => ExprSpec::s("gq", 64),
                         1 => ExprSpec::cu(*g.rng.pick(&code_targets), 64),
                         2 => ExprSpec::cu(*g.rng.pick(&code_targets) & 0xffff_ffff, 32),
@@ -1353,12 +1373,32 @@ pub fn generate(run_seed: u64, index: u64) -> Script {
                 }
             }
         }
+        // sometimes move an instruction inside its block afterwards (never the last one,
+        // which may be the Branch terminator): indices are then not ascending
+        let mut moved = Vec::new();
+        if g.rng.chance(1, 5) {
+            let lens: Vec<usize> = blocks.iter().map(|b| b.len()).collect();
+            // lengths after the removals above
+            let mut eff = lens.clone();
+            for &(b, _) in &removed {
+                eff[b] = eff[b].saturating_sub(1);
+            }
+            let b = g.rng.usize_below(nblocks);
+            if eff[b] >= 3 {
+                let from = g.rng.usize_below(eff[b] - 1);
+                let to = g.rng.usize_below(eff[b] - 1);
+                if from != to {
+                    moved.push((b, from, to));
+                }
+            }
+        }
         funcs.push(FuncSpec {
             address: 0x10_0000 + 0x1000 * fi as u64 + 0x8_0000,
             blocks,
             edges,
             entry: 0,
             removed,
+            moved,
         });
     }
 
